@@ -79,3 +79,18 @@ class H_mcd:
 
 
 HOLDERS = {"m": H_m, "c": H_c, "mc": H_mc, "d": H_d, "md": H_md, "cd": H_cd, "mcd": H_mcd}
+
+
+# the link family: subclasses that annotate the linked init_arg o differently (mapping vs dataclass)
+class LBase:
+    pass
+
+
+class WD(LBase):
+    def __init__(self, o: dict, a: int = 1):
+        self.o, self.a = o, a
+
+
+class WO(LBase):
+    def __init__(self, o: Data, a: int = 1):
+        self.o, self.a = o, a
